@@ -166,7 +166,8 @@ CHECKS["C17"] = {
             "A class is (pair kind, duration class, instant relative to the stamp, outcome) or (mutation kind, username shape, outcome).",
     "parts": [A("handlers", "./checks/c17", "TestC17Handlers", budget={"quick": 60, "thorough": 300}),
               A("mutations", "./checks/c17", "TestC17Mutations", budget={"quick": 60, "thorough": 300}),
-              A("e2e", "./checks/c17", "TestC17EndToEnd", budget={"quick": 60, "thorough": 300})],
+              A("e2e", "./checks/c17", "TestC17EndToEnd", budget={"quick": 60, "thorough": 300}),
+              A("concurrent", "./checks/c17", "TestC17Concurrent", race=True, sampling=True, nshards=1, budget={"quick": 60, "thorough": 120})],
 }
 CHECKS["C20"] = {
     "level": "exploration",
